@@ -29,15 +29,16 @@ def sat(name, family, quick, thorough, tags, shard=400):
 
 
 PROPS = {
-    "C01": dict(theorems=["C01_engine_computes_semantics"], cone=ENGINE_CONE, rule=ENGINE_RULE,
-                families=[eng("engine", "C01", 1200, 20000, ["sat", "panic"])]),
-    "C02": dict(theorems=["C02_engine_computes_semantics"], cone=ENGINE_CONE, rule=ENGINE_RULE,
+    "C01": dict(theorems=["C01_success_means_valid", "C01_engine_computes_semantics"], cone=ENGINE_CONE + ["Proofs/Indep.v", "Proofs/SatP.v"], rule=ENGINE_RULE,
+                families=[eng("engine", "C01", 1200, 20000, ["sat", "panic"]),
+                          sat("helpers", "helpers", 600, 8000, ["tests"], shard=300)]),   # a struct test lost by a derived schema is a skipped constraint
+    "C02": dict(theorems=["C02_engine_computes_semantics", "C02_node_refines", "C02_all_failing_tests_reported", "C02_test_issues_at_own_path", "C02_missing_required_is_one_issue", "C02_coerce_failure_is_one_issue", "C02_struct_not_a_record", "C02_nil_iff_no_violation"], cone=ENGINE_CONE + ["Proofs/ExactP.v", "Proofs/AbsentP.v"], rule=ENGINE_RULE,
                 families=[eng("engine", "C02", 1200, 20000, ["nil", "issues", "panic"])]),
-    "C03": dict(theorems=["C03_engine_computes_semantics"], cone=ENGINE_CONE + ["Model/Coerce.v"], rule=ENGINE_RULE,
+    "C03": dict(theorems=["C03_engine_computes_semantics", "C03_leaf_is_coercion", "C03_documented_coercions", "C03_unnamed_fields_untouched", "C03_slice_keeps_length_and_order", "C03_pointer_allocates", "C03_absent_pointer_stays_nil"], cone=ENGINE_CONE + ["Model/Coerce.v", "Proofs/ExactP.v"], rule=ENGINE_RULE,
                 families=[eng("engine", "C03", 1200, 20000, ["dest", "panic"])]),
-    "C04": dict(theorems=["C04_engine_computes_semantics"], cone=ENGINE_CONE, rule=ENGINE_RULE,
+    "C04": dict(theorems=["C04_parse_absent_iff", "C04_falsy_values_are_present", "C04_validate_absent_examples", "C04_absent_default", "C04_absent_required", "C04_absent_optional", "C04_slice_absent_required", "C04_slice_absent_optional", "C04_ptr_absent_notnil", "C04_ptr_absent_optional", "C04_engine_computes_semantics"], cone=ENGINE_CONE + ["Proofs/AbsentP.v"], rule=ENGINE_RULE,
                 families=[eng("engine", "C04", 1200, 20000, ["nil", "issues", "dest", "calls", "panic"])]),
-    "C05": dict(theorems=["C05_engine_computes_semantics"], cone=ENGINE_CONE, rule=ENGINE_RULE,
+    "C05": dict(theorems=["C05_catch_own_node", "C05_catch_is_local", "C05_elements_are_independent", "C05_engine_computes_semantics"], cone=ENGINE_CONE + ["Proofs/Indep.v", "Proofs/CatchP.v"], rule=ENGINE_RULE,
                 families=[eng("engine", "C05", 1200, 20000, ["nil", "issues", "dest", "panic"])]),
     "C06": dict(theorems=["C06_try_provider_never_panics", "C06_lookup_never_panics", "C06_field_name_never_panics", "C06_parse_struct_never_panics",
                           "C06_engine_total_on_all_data", "C06_legacy_named_map_panics", "C06_legacy_unexported_field_panics", "C06_legacy_long_key_panics"],
@@ -60,12 +61,12 @@ PROPS = {
                 rule="generated schema objects shared by 16 goroutines, each running Parse / Validate / Collect with its own data, destination (two destination struct layouts per schema) and options under the Go race detector; every result is compared with the result of the same call running alone; distinct = distinct shared schema shapes",
                 families=[dict(name="race", family="race", quick=0, thorough=0, tags=["data_race", "concurrent_result"]),
                           dict(name="history", family="history", profile="C07", quick=300, thorough=4000, tags=["isolation", "isolation_dirty", "issue_aliased", "panic"])]),
-    "C09": dict(theorems=["C09_engine_computes_semantics"], cone=ENGINE_CONE, rule=ENGINE_RULE,
+    "C09": dict(theorems=["C09_struct_order_independent_partial", "C09_fields_order_independent_partial", "C09_error_state_irrelevant_without_transforms", "C09_engine_computes_semantics"], cone=ENGINE_CONE + ["Proofs/Indep.v"], rule=ENGINE_RULE,
                 families=[eng("engine", "C09", 1000, 16000, ["repeat", "repeat_ptgate", "panic"])]),
-    "C10": dict(theorems=["C10_engine_computes_semantics"], cone=ENGINE_CONE, rule=ENGINE_RULE,
+    "C10": dict(theorems=["C10_map_wf", "C10_paths", "C10_field_key", "C10_nested_source_tag_refuted", "C10_engine_computes_semantics"], cone=ENGINE_CONE + ["Proofs/ErrsP.v", "Proofs/FrontEndsP.v"], rule=ENGINE_RULE,
                 families=[eng("engine", "C10", 1200, 20000, ["issues", "first", "panic"]),
                           dict(name="fe", family="fe", profile="fe", quick=700, thorough=8000, tags=["issues", "first", "panic", "nested_source_tag"])]),
-    "C12": dict(theorems=["C12_engine_computes_semantics"], cone=ENGINE_CONE, rule=ENGINE_RULE,
+    "C12": dict(theorems=["C12_engine_computes_semantics", "C12_test_receives_the_tested_value", "C12_pts_prefix_in_order", "C12_pts_skipped_when_an_issue_exists", "C12_preprocess_error_skips_schema", "C12_preprocess_type_mismatch_skips_schema", "C12_ctx_values_are_this_calls"], cone=ENGINE_CONE + ["Proofs/ExactP.v", "Model/Objects.v", "Proofs/ObjectsP.v"], rule=ENGINE_RULE,
                 families=[eng("engine", "C12", 1200, 20000, ["calls", "args", "ctx", "haserr", "panic"])]),
     "C11": dict(theorems=["C11_catalogue_ok_partial", "C11_custom_refuted", "C11_no_placeholder_left", "C11_precedence_test", "C11_precedence_exec",
                           "C11_precedence_global", "C11_i18n_uses_context_language", "C11_i18n_falls_back_to_default"],
